@@ -26,7 +26,7 @@ CHECKS["C16"]=dict(cat="exploration", engine="xplore", design="DESIGN.md §3 C16
 CHECKS["C17"]=dict(cat="exploration", engine="xplore", design="DESIGN.md §3 C17",
    technique="bounded-exhaustive enumeration of all schemas up to 3 (quick) / 4 (thorough) fields over the field-kind alphabet x key positions x record-set classes, each written by the real DbcWriter and read through every real access path, judged against an independent DBC emitter/reader",
    text="Every schema of the bounded alphabet with every key option and record-count/key-order/string-layout class is emitted by an independent emitter, parsed, rewritten by the real writer and re-read through eager, lazy, mmap and parallel paths (several pool sizes) and all key-lookup methods; values, sizes, string de-duplication and path agreement are compared.",
-   note="Trusted: props/c17/src/dbcref.rs (independent emitter/reader from the documented DBC layout). Parallel path runs on real rayon (pool sizes 1..4); schedule exploration is not claimed here.")
+   note="Trusted: props/c17/src/dbcref.rs (independent emitter/reader from the documented DBC layout). The parallel path is additionally run under loom with the rayon stand-in (props-sh/c17.sh, harness-sched/c17p): every interleaving of its chunk tasks up to the preemption bound.")
 CHECKS["C18"]=dict(cat="exploration", engine="xplore", design="DESIGN.md §3 C18",
    technique="bounded-exhaustive enumeration of tile grids (incl. each of the 4096 single tiles) x flags x optional chunks x versions x conversion pairs through the real WDT/WDL writers, readers and converters, plus all 4096 tile indices for the coordinate maps, judged by field equality, byte-identical second write and an independent chunk walker",
    text="All 4096 tile indices for the coordinate inversion; every grid/flag/version/object-shape combination of the stated axes for WDT and WDL is written, walked by an independent chunk walker (index order, MAOF targets), read back, rewritten and converted between all version pairs.",
